@@ -52,7 +52,11 @@ func ddl(r Rlm) []string {
 			items = append(items, s)
 		}
 		for _, k := range t.Chks {
-			items = append(items, "CONSTRAINT "+q(k.N)+" CHECK ("+k.X+")")
+			if k.N == "" {
+				items = append(items, "CHECK ("+k.X+")")
+			} else {
+				items = append(items, "CONSTRAINT "+q(k.N)+" CHECK ("+k.X+")")
+			}
 		}
 		out = append(out, "CREATE TABLE "+q(t.N)+" ("+strings.Join(items, ", ")+")")
 		for _, x := range t.Idx {
